@@ -47,8 +47,8 @@ def population(tier, seed):
     core_total = len(trees)
     idx = list(range(len(trees)))
     if tier == "quick":
-        per_profile = 18
-        per_profile16 = 8
+        per_profile = 14
+        per_profile16 = 6
     else:
         per_profile = 100
         per_profile16 = 40
